@@ -123,6 +123,23 @@ def extra_rows(df, rng):
     return pd.concat([lead[COLS], df[COLS], trail[COLS]], ignore_index=True)
 
 
+def nan_rows(df, rng):
+    """Leading rows of a station that did not record everything yet, trailing rows of days that
+    have not happened yet: values missing in the required columns, all outside the window."""
+    out = extra_rows(df, rng)
+    n0 = int((out["Date"] < df["Date"].iloc[0]).sum())
+    n1 = int((out["Date"] > df["Date"].iloc[-1]).sum())
+    out = out.copy()
+    for c in ("ReferenceET", "MinTemp", "MaxTemp", "Precipitation"):
+        if n0:
+            k = int(rng.integers(1, n0 + 1))
+            out.loc[out.index[:k], c] = np.nan if rng.random() < 0.7 else out.loc[out.index[:k], c]
+        if n1:
+            k = int(rng.integers(1, n1 + 1))
+            out.loc[out.index[len(out) - k:], c] = np.nan
+    return out
+
+
 def gap_rows(df, rng):
     """Leading and trailing fragments that are NOT contiguous with the window (joined files with
     holes, an earlier year without its 29 February ...)."""
@@ -158,6 +175,31 @@ def run_case(case):
                     f"temp_max={tmax!r}, temp_min={tmin!r}, et0={et0!r}; the record of that date has "
                     f"Precipitation={rec[2]!r}, MaxTemp={rec[1]!r}, MinTemp={rec[0]!r}, ReferenceET={rec[3]!r}",
                     dict(t=s["t"]))
+    # the thermal calendar of every season (days to maturity, to maximum canopy, to the start of
+    # yield formation) is derived from the temperatures of the dates from that planting date on:
+    # recompute it from the user's record, each variable from the column of its name
+    for sc, cr in sorted(B.trace.season_crop.items()):
+        if int(cr.get("CalendarType", 1)) != 2 or spec["crop"].get("kw", {}).get("SwitchGDD") or sc >= len(B.trace.init["planting"]):
+            continue
+        pl = B.trace.init["planting"][sc].date()
+        e0 = S.d(spec["end"])
+        days = [d_ for d_ in sorted(wl) if pl <= d_ <= e0]
+        if len(days) < 2:
+            continue
+        rec = np.array([wl[d_] for d_ in days], dtype=float)         # MinTemp, MaxTemp, P, ET0
+        from .c16 import ref_gdd
+        cum = np.cumsum(ref_gdd(int(cr.get("GDDmethod", 3)), float(cr["Tupp"]), float(cr["Tbase"]), rec[:, 1], rec[:, 0]))
+        for gname, cdname in (("Maturity", "MaturityCD"), ("MaxCanopy", "MaxCanopyCD"), ("HIstart", "HIstartCD")):
+            thr = float(cr[gname])
+            if not (cum[-1] > thr):
+                continue
+            want = int(np.argmax(cum > thr)) + 1
+            cov["thermal_calendar_checks"] += 1
+            if int(cr[cdname]) != want and abs(cum[want - 1] - thr) > 1e-9 and abs(cum[max(want - 2, 0)] - thr) > 1e-9:
+                acc.add("calendar-binding", f"season {sc} (planted {pl}): {cdname} = {int(cr[cdname])}, but the degree days of the "
+                        f"user's MinTemp / MaxTemp records from that date on pass {gname} = {thr} on day {want}",
+                        dict(season=sc, name=cdname, model=int(cr[cdname]), expected=want))
+                break
     d0 = sim.tables_digest(B)
     # ---- (2) transformations -----------------------------------------------------------------
     plans = []
@@ -171,6 +213,7 @@ def run_case(case):
         plans.append(("index", f"index replaced ({kind})", lambda df, kind=kind: reindex(df, rng, kind)))
     plans.append(("extra_rows", "extra leading and trailing rows", lambda df: extra_rows(df, rng)))
     plans.append(("extra_rows", "extra leading and trailing rows with holes outside the window", lambda df: gap_rows(df, rng)))
+    plans.append(("extra_rows", "extra leading and trailing rows with missing values (outside the window)", lambda df: nan_rows(df, rng)))
     for _ in range(3):
         p = PERMS[int(rng.integers(0, len(PERMS)))]
         kind = gen.pick(rng, ["reversed", "strings", "datetime", "offset", "unpadded", "shuffled"])
